@@ -14,7 +14,8 @@ func writeEvidence(o *Options, all []*harnessStats, findings []*finding, violati
 	var paths, steps, validated int64
 	var assertQ, feasQ, assertsSeen, modelHits int64
 	var sat, unsat, unknown, serr int
-	var solverTime time.Duration
+	var solverTime, fbT time.Duration
+	var fbQ int64
 	funcs := map[string]bool{}
 	var samples []any
 	bounds := map[string]any{}
@@ -35,6 +36,8 @@ func writeEvidence(o *Options, all []*harnessStats, findings []*finding, violati
 		unknown += hs.Solver.Unknown
 		serr += hs.Solver.Errors
 		solverTime += hs.Solver.Time
+		fbQ += hs.FallbackQ
+		fbT += hs.FallbackTime
 		for f := range hs.Funcs {
 			if strings.HasPrefix(f, "github.com/ohler55/ojg") || strings.HasPrefix(f, "(github.com/ohler55/ojg") || strings.HasPrefix(f, "(*github.com/ohler55/ojg") {
 				if !strings.Contains(f, "/internal/vx") && !strings.Contains(f, "/internal/vref") && !strings.Contains(f, "Verif") {
